@@ -39,11 +39,15 @@ OPEN_STATEMENTS = [
     'build_term_op_sound, build_term_op_entries(_spec), prefilter_exact); that normal_ordered yields such terms belongs to '
     'another property and is tied here by the number-preserving stream (every entry against Spec.melF of the original operator); '
     'the csc construction / summing of duplicate entries by scipy is trusted (mirrored by the dictionary accumulation)',
-    'expectation_cbs_list_sound: expectation value = <s|F|s> for normal-ordered operators with at most two-body terms: proved '
-    'are the agreement of the vector and list conventions (expectation_vector_is_list) and the Spec diagonal elements of the '
-    'three kinds of terms the function reads (expectation_terms_sound); the summation over the dictionary is not',
-    's_squared = S-S+ + Sz(Sz+1), sx, sy, s_plus, s_minus: covered by the special-operators stream (Spec formula equality on all '
-    'basis states); sz and the number operator are proved diagonal (sz_operator_diag, number_operator_diag)',
+    'expectation_cbs_list_sound is proved for operators whose terms are among the constant, i^ i and j^ i^ j i (i < j) '
+    '(expectation_cbs_sound, summed over the dictionary; with expectation_vector_is_list for the vector input); for other '
+    'operators the function ignores the remaining terms (off-diagonal terms have zero diagonal elements; diagonal terms with '
+    'three or more bodies, or not normal-ordered, are outside the documented contract) - covered by the expectation stream only',
+    'spin operators: proved for every number of sites (tolerance-free Model): sx = (s_plus + s_minus)/2 and '
+    'sy = (s_plus - s_minus)/(2i) as operators (sx_sy_ladder), s_squared = S-.S+ + Sz.(Sz + 1) as the composition of the '
+    'Model operators (s_squared_composition), sz and the number operator diagonal (sz_operator_diag, number_operator_diag); '
+    'not proved: the commutation relations [S+, S-] = 2 Sz, [Sz, S+-] = +-S+- and the explicit action of s_plus / s_minus on a '
+    'basis state; the special-operators stream checks the Spec formula of every operator on all basis states for 0..3 sites (0..4 in the thorough tier)',
     'jw_get_ground_state_at_particle_number: float contract over eigsh / eigh only; observation outside the property: it raises '
     'ArpackError when the operator vanishes on a sector of dimension >= 3 (all-zero matrix given to eigsh); those inputs are skipped',
 ]
